@@ -1010,4 +1010,97 @@ theorem frame_wrap (t t' : Val) (P : Pos) (old z x : Val) (p : Pos)
   rw [getAt_append, hP] at hp
   simpa [getAt, child] using hp
 
+/-! ### item 1 of the task, as stated: the miss after a spelled prefix -/
+
+/-- a token list that spells position `q` (a dict), then a plain key that dict does not have:
+NOT FOUND at `q`, the rest of the path reported, the tree untouched -/
+theorem find_miss_key (t : Val) (rl : Bool) (toks0 : List Str) (q : Pos) (cls : Cls) (kvs : List (Str × Val))
+    (n : Str) (rest : List Str) (hs : Spells toks0 t q (.dict cls kvs)) (hk : KeyTok n)
+    (hl : lookup n kvs = Option.none) (fuel : Nat) (hf : fuel ≥ 2 * toks0.length + 1) :
+    ∃ fnd, findD fuel t [] false true (toks0 ++ n :: rest) (.at []) rl slash
+      = .ok (t, { parent := .at q, nameIdx := Option.none, value := Val.none, found := fnd,
+                  notFound := some (n :: rest) }) := by
+  obtain ⟨w, hw⟩ := hs.exF
+  exact ⟨slash ++ w, by
+    simpa using find_walk_miss t rl hw n n .none rest hk.split hk.ne hk.notUp hk.notStar hl fuel [] slash true rfl hf⟩
+
+/-- the same for a `name[idx]` token whose name is absent (whatever the index text) -/
+theorem find_miss_keyidx (t : Val) (rl : Bool) (toks0 : List Str) (q : Pos) (cls : Cls) (kvs : List (Str × Val))
+    (tok k e : Str) (rest : List Str) (hs : Spells toks0 t q (.dict cls kvs))
+    (hsplit : splitNameIndex tok = .ok (k, .str e)) (hne : k ≠ []) (hup : k ≠ ['.', '.']) (hstar : k ≠ ['*'])
+    (hl : lookup k kvs = Option.none) (fuel : Nat) (hf : fuel ≥ 2 * toks0.length + 1) :
+    ∃ fnd, findD fuel t [] false true (toks0 ++ tok :: rest) (.at []) rl slash
+      = .ok (t, { parent := .at q, nameIdx := Option.none, value := Val.none, found := fnd,
+                  notFound := some (tok :: rest) }) := by
+  obtain ⟨w, hw⟩ := hs.exF
+  exact ⟨slash ++ w, by
+    simpa using find_walk_miss t rl hw tok k (.str e) rest hsplit hne hup hstar hl fuel [] slash true rfl hf⟩
+
+/-! ### the creation grammar and its reference semantics (for the full statement) -/
+
+/-- one step of a creation path -/
+inductive CStep
+  | name (n : Str)            -- `/n`
+  | elem (n : Str) (e : Str)  -- `/n[e]`  with `e` = `new()`, `0` or the decimal length
+  | idx (e : Str)             -- `[e]` directly below a list, `e` = `new()` or the decimal length
+  deriving DecidableEq, Repr
+
+def CStep.isName : CStep → Bool
+  | .name _ => true
+  | _ => false
+
+def renderStep : CStep → Str
+  | .name n => '/' :: n
+  | .elem n e => '/' :: n ++ bracket e
+  | .idx e => bracket e
+
+/-- what a chain of creation steps puts into a slot that did not exist -/
+def fill : List CStep → Val → Val
+  | [], v => v
+  | .name n :: r, v => .dict .n0 [(n, fill r v)]
+  | .elem n _ :: r, v => .dict .n0 [(n, .list .n0 [fill r v])]
+  | .idx _ :: r, v => .list .n0 [fill r v]
+
+/-- reference semantics: the new value of the existing node `cur` after the creation path -/
+def createIn (cur : Val) : List CStep → Val → Option Val
+  | [], _ => Option.none
+  | .name n :: r, v =>
+    match cur with
+    | .dict c kvs => if lookup n kvs = Option.none then some (.dict c (kvSet n (fill r v) kvs)) else Option.none
+    | _ => Option.none
+  | .elem n e :: r, v =>
+    match cur with
+    | .dict c kvs =>
+      match lookup n kvs with
+      | Option.none =>
+        if e = sNew ∨ e = ['0'] then some (.dict c (kvSet n (.list .n0 [fill r v]) kvs)) else Option.none
+      | some old =>
+        if e = sNew then some (.dict c (kvSet n (appendTo old (fill r v)) kvs))
+        else match old with
+          | .list c' xs =>
+            if e = natStr xs.length then some (.dict c (kvSet n (.list c' (xs ++ [fill r v])) kvs)) else Option.none
+          | _ => Option.none
+    | _ => Option.none
+  | .idx e :: r, v =>
+    match cur with
+    | .list c xs => if e = sNew ∨ e = natStr xs.length then some (.list c (xs ++ [fill r v])) else Option.none
+    | _ => Option.none
+
+/-- steps after the first address slots that the creation itself made: fresh names, `n[new()]`, `n[0]` -/
+def CStep.later : CStep → Prop
+  | .name n => PlainKey n
+  | .elem n e => PlainKey n ∧ (e = sNew ∨ e = ['0'])
+  | .idx _ => False
+
+def CStep.first : CStep → Prop
+  | .name n => PlainKey n
+  | .elem n _ => PlainKey n
+  | .idx _ => True
+
+/-- the honoured grammar: every element-creating step is the last step or is followed by a name -/
+def GOk : List CStep → Prop
+  | [] => True
+  | [_] => True
+  | s :: s2 :: r => (s.isName = true ∨ s2.isName = true) ∧ GOk (s2 :: r)
+
 end N0.XPath
